@@ -32,6 +32,7 @@ def run(ctx):
     # correct byte sequence delivered in pieces into H3_FRAME_ERROR when it goes stale
     shared.frame_decoder_memo(ctx, "C07-b")
     _c17.errors_not_swallowed(ctx, "C07-b")
+    shared.bufrecv_poll_data(ctx, "C07-b")
     prog = ctx.prog
     # ------------------------------------------------------------------ C07-a handle_quic_stream_error
     h = ru.need(ctx, "C07-a", CEC + "CloseStream::handle_quic_stream_error")
